@@ -44,12 +44,17 @@ func (f *Figure) ElementType() string {
 func (f *Figure) GenerateOutput(textOnly bool) string {
 	figCaption := domutil.CloneAndProcessTree(f.Caption, f.PageURL)
 	if textOnly {
+		if figCaption == nil {
+			// The caption is not rendered (e.g. it is hidden), so it has no text.
+			return ""
+		}
+
 		return domutil.InnerText(figCaption)
 	}
 
 	figure := dom.CreateElement("figure")
 	dom.AppendChild(figure, f.getProcessedNode())
-	if dom.InnerHTML(f.Caption) != "" {
+	if figCaption != nil && dom.InnerHTML(f.Caption) != "" {
 		dom.AppendChild(figure, figCaption)
 	}
 
